@@ -13,6 +13,7 @@ pub mod c23_bloom;
 pub mod c24_text;
 pub mod c25_marks;
 pub mod c26_cursors;
+pub mod c27_reconcile;
 pub mod c28_rollback;
 pub mod c30_objids;
 pub mod c38_actorseq;
@@ -34,6 +35,7 @@ pub fn registry() -> Vec<Box<dyn Check>> {
         Box::new(c24_text::C24),
         Box::new(c25_marks::C25),
         Box::new(c26_cursors::C26),
+        Box::new(c27_reconcile::C27),
         Box::new(c28_rollback::C28),
         Box::new(c30_objids::C30),
         Box::new(c38_actorseq::C38),
